@@ -90,3 +90,25 @@ Definition ellipse_draw_styled (e : ellipse) (st : style) : list fill_call :=
 (* styled.rs:144-150 *)
 Definition ellipse_styled_bbox (e : ellipse) (st : style) : rect :=
   offset (ellipse_bbox e) (sat_u32_to_i32 (outside_stroke_width st)).
+
+(* ---- machine arithmetic of Ellipse::contains ---------------------------------------------- *)
+(* Every arithmetic result Ellipse::contains(p) computes fits its Rust type: mod.rs:106-110 center_2x (i32),
+   mod.rs:123-128 `point * 2 - center_2x` (i32), mod.rs:182-197 `(w as u64).pow(2)`, `(h as u64).pow(2)`,
+   `circle::diameter_to_threshold(width)` (u32 arithmetic!) or `b * a` (u64), mod.rs:200-210 `(x as i64).pow(2) as u64`
+   (always fits for an i32 x), `x + y` resp. `b * x + a * y` (u64). *)
+Definition ellipse_contains_fits (e : ellipse) (p : point) : bool :=
+  let w := sw (e_sz e) in let h := sh (e_sz e) in
+  let rw := sat_sub_u32 w 1 in let rh := sat_sub_u32 h 1 in
+  let tx := px (e_tl e) * 2 in let ty := py (e_tl e) * 2 in
+  let cx := tx + rw in let cy := ty + rh in
+  let qx := px p * 2 in let qy := py p * 2 in
+  let dx := qx - cx in let dy := qy - cy in
+  let a := w * w in let b := h * h in
+  let X := dx * dx in let Y := dy * dy in
+  in_i32 tx && in_i32 ty && in_i32 rw && in_i32 rh && in_i32 cx && in_i32 cy && in_i32 qx && in_i32 qy
+  && in_i32 dx && in_i32 dy && in_u64 a && in_u64 b
+  && (if w =? h then in_u32 (w * w) else in_u64 (b * a))
+  && (if a =? b then in_u64 (X + Y) else in_u64 (b * X) && in_u64 (a * Y) && in_u64 (b * X + a * Y)).
+
+Definition ellipse_contains_checked (e : ellipse) (p : point) : option bool :=
+  if ellipse_contains_fits e p then Some (ellipse_contains e p) else None.
